@@ -301,6 +301,7 @@ pub struct World {
     steps: u64,
     accepted_pairs: Vec<usize>,
     drop_run: [i128; 2],
+    injected: u64,
 }
 
 fn ecn_code(e: Option<EcnCodepoint>) -> i128 {
@@ -446,6 +447,7 @@ impl World {
             steps: 0,
             accepted_pairs: Vec::new(),
             drop_run: [0, 0],
+            injected: 0,
             p,
         };
         let (cert, key) = load_cert();
@@ -622,6 +624,10 @@ impl World {
     }
 
     fn attacker_inject(&mut self) {
+        // bounded attacker: at most 400 injected datagrams per run (each one causes a wake-up)
+        if self.injected >= 400 {
+            return;
+        }
         let p = &self.p;
         let replay = p.get(k::REPLAY, 0);
         let spoof = p.get(k::SPOOF, 0);
@@ -632,6 +638,7 @@ impl World {
             self.seq += 1;
             let sid = self.addr_id(src);
             let did = self.addr_id(dst);
+            self.injected += 1;
             self.trace.push(vec![9, self.now as i128, -1, 5, sid, did, data.len() as i128]);
             self.net.push(Pkt { at: self.now + 1 + self.rng.below(5000), seq: self.seq, src, dst, ecn: None, data, origin, kind: 5 });
         }
@@ -642,6 +649,7 @@ impl World {
             self.seq += 1;
             let sid = self.addr_id(src);
             let did = self.addr_id(dst);
+            self.injected += 1;
             self.trace.push(vec![9, self.now as i128, -1, 6, sid, did, data.len() as i128]);
             self.net.push(Pkt { at: self.now + 1 + self.rng.below(5000), seq: self.seq, src, dst, ecn: None, data, origin, kind: 6 });
         }
@@ -690,6 +698,7 @@ impl World {
             self.seq += 1;
             let sid = self.addr_id(src);
             let did = self.addr_id(dst);
+            self.injected += 1;
             self.trace.push(vec![9, self.now as i128, -1, 7, sid, did, data.len() as i128]);
             self.net.push(Pkt { at: self.now + 1, seq: self.seq, src, dst, ecn: None, data, origin: -2, kind: 7 });
         }
